@@ -288,7 +288,18 @@ def check_track_sections(ctx: Ctx, r: Rule, which: str, strict: Any = True) -> d
         if fl.name in out["fields"]:
             continue
         if v_ is not None and v_[0] == "call" and v_[1][0] in ("func", "boundcls") and v_[1][1] != BUILD:
-            continue  # a dedicated builder (note events), checked by the note rules
+            # a dedicated builder (note events; its loop is checked by the note rules): it must be fed this kind's own data list
+            pdq = ft[1][1] + ".ParsedData" if ft[0] == "seq" else None
+            if pdq is not None and pdq in idx:
+                want_l = ("proj", PC, idx[pdq]) if not direct else \
+                    ("?or", ("call", ("meth", "__getitem__"), (("attr", pcall.result, "_dict"), ("class", pdq)), ()), ("sub", pcall.result, ("class", pdq)))
+                args_ = [a for _, a in v_[3]]
+                if not any((match(want_l, a) is not None) if direct else (strip(a) == strip(want_l)) for a in args_):
+                    fail(r, ctx, f, ex[0].node, f"the {fl.name} builder must receive exactly the data the dispatcher collected for {pdq.split('.', 1)[1]} from "
+                                                f"this section's own lines; it receives {[show(a)[:80] for a in args_]}")
+            elif pdq is not None:
+                fail(r, ctx, f, ex[0].node, f"{pdq.split('.', 1)[1]} is not among the kinds whose data this section collects")
+            continue
         fail(r, ctx, f, ex[0].node, f"field {fl.name} of {c.name} is not the result of a per-kind builder applied to this section's data; found "
                                     f"{show(v_)[:120] if v_ else None}")
     return out
